@@ -706,7 +706,7 @@ Definition run_http (ws : list bytes) : bytes :=
       | Some status, Some ct, Some body, Some url_ok =>
           let use_ext := is_kw "X" efk in
           let calls := s2b " calls=1" in
-          (if N.eqb status 0 then s2b "request"
+          (if N.eqb status 0 then s2b "request " ++ tok_bytes body
            else if is_kw "code" kind || is_kw "refresh" kind || is_kw "password" kind || is_kw "cc" kind then
              if use_ext then
                render_outcome_gen
@@ -750,7 +750,13 @@ Definition built_rt {A} (dec : json -> option A) (enc : A -> json) (rend : A -> 
   let j := json_print (enc v) in
   unwords [s2b "ok"; rend v; tok_bytes j; s2b "rt";
            match from_body dec j with
-           | Some v' => unwords [rend v'; tok_bytes (json_print (enc v'))]
+           | Some v' =>
+               let j' := json_print (enc v') in
+               unwords [rend v'; tok_bytes j'; s2b "rt";
+                        match from_body dec j' with
+                        | Some v'' => unwords [rend v''; tok_bytes (json_print (enc v''))]
+                        | None => s2b "err"
+                        end]
            | None => s2b "err"
            end].
 
